@@ -20,7 +20,8 @@ def record_and_validate(c, tier, tag, what):
     c.add("units_recorded", res["units"])
     c.cov["fresh_values_recorded"] = res["fresh_values"]
     ok = 0
-    files = [f for f in res["files"] + [res["fresh_file"]] if os.path.getsize(f) > 0]
+    files = [f for f in res["files"] + [res["fresh_file"], res["stamp_file"]] if os.path.getsize(f) > 0]
+    c.cov["timestamps_recorded_after_idle"] = res["stamps"]
     for path in files:
         acc, matched, r = validate_trace("TraceWire", "TraceWire.cfg", path, timeout=3000, heap="6g")
         c.tlc_stats(r)
@@ -61,6 +62,10 @@ def run(tier):
         seen[d] = rr.violated
         if rr.violated != "NoReuse":
             raise vlib.ToolError("anti-vacuity: deviation %s not detected by the model" % d)
+    rr = tlc("Wire", "Wire_dev_StampAtCreate.cfg", workers=1, timeout=300, heap="1g")
+    seen["StampAtCreate"] = rr.violated
+    if rr.violated != "SentFresh":
+        raise vlib.ToolError("anti-vacuity: deviation StampAtCreate not detected by the model")
     c.cov["deviations_detected_by_model"] = seen
     files = record_and_validate(c, tier, "c12", "nonce ledger")
     # binding self-test: make one counter repeat -> TLC must reject
